@@ -171,3 +171,74 @@ From BigNum Require Import Cfg.
 Theorem C04_norm_sites_present : forallb norm_ok norm_sites = true.
 Proof. vm_compute. reflexivity. Qed.
 Print Assumptions C04_norm_sites_present.
+
+(* ---- added by the API audit (docs/API_COVERAGE.md) --------------------------------------------------
+   ways of obtaining / comparing values that the machine above did not have: the comparison OPERATORS
+   (partial_cmp, <, <=, >, >=, !=), text constructors (from_str_radix, parse_bytes), From<primitive>,
+   arbitrary::Arbitrary (any byte string), and BigInt `op= primitive scalar` steps. *)
+From BigNum Require Import Prim PrimProofs BytesLemmas ExtraOrd ExtraOrdProofs ExtraHist SpecExtra ExtraHistProofs.
+
+(** partial_cmp and the four operators agree with numerical order (no debug assertion fires); `!=` is
+    the negation of `==` *)
+Theorem C04_operators_u : forall a b, canon a -> canon b ->
+  uord a b = Ret (zord (val a) (val b)) /\ une a b = Ret (negb (val a =? val b)).
+Proof. intros; split; [apply uord_spec|apply une_spec]; auto. Qed.
+Print Assumptions C04_operators_u.
+Theorem C04_operators_i : forall x y, icanon x -> icanon y ->
+  iord x y = Ret (zord (ival x) (ival y)) /\ ine x y = Ret (negb (ival x =? ival y)).
+Proof. intros; split; [apply iord_spec|apply ine_spec]; auto. Qed.
+Print Assumptions C04_operators_i.
+
+(** arbitrary::Arbitrary on ANY byte string: the canonical value of the decoded digit vector
+    (high zero digits stripped; a zero magnitude gives NoSign whatever sign byte was drawn) *)
+Theorem C04_arbitrary_canon : forall b, inb 256 b ->
+  fst (arb_biguint b) = enc (arb_val b) /\ canon (fst (arb_biguint b)) /\
+  fst (arb_bigint b) = ienc (arb_ival b) /\ icanon (fst (arb_bigint b)).
+Proof.
+  intros b Hb. split; [apply arb_biguint_spec; exact Hb|]. split; [apply arb_biguint_canon; exact Hb|].
+  split; [apply arb_bigint_spec; exact Hb|apply arb_bigint_canon; exact Hb].
+Qed.
+Print Assumptions C04_arbitrary_canon.
+
+(** every extended constructor yields the canonical object of the value its input denotes
+    (or fails exactly where the Z-level reading fails) *)
+Theorem C04_xconstruct_spec : forall c, xctor_wf c ->
+  xconstruct P c = omap (oenc (fst (sxconstruct c))) (snd (sxconstruct c)).
+Proof. exact xconstruct_spec. Qed.
+Print Assumptions C04_xconstruct_spec.
+
+(** a whole extended history (any such constructor, then any mix of the operations above and
+    BigInt `op= scalar` steps) shows, after every step, the canonical object of what the same history
+    computes on integers; in particular every object it shows is canonical *)
+Theorem C04_xhistory_trace_spec : forall c ops, xctor_wf c -> Forall xop_wf ops ->
+  xhistory_trace P c ops = map (omap (oenc (fst (sxhistory_trace c ops)))) (snd (sxhistory_trace c ops)).
+Proof. exact xhistory_trace_spec. Qed.
+Print Assumptions C04_xhistory_trace_spec.
+Theorem C04_xhistory_canon : forall c ops s, xctor_wf c -> Forall xop_wf ops ->
+  In (Ret s) (xhistory_trace P c ops) -> ocanon s.
+Proof. exact xhistory_trace_canon. Qed.
+Print Assumptions C04_xhistory_canon.
+
+Example C04_audit_nonvacuous :
+  (* "-0_12" radix 10, then += i8 -5, *= u64 2^63 twice: a two-digit negative value *)
+  xhistory_trace P (XIStr [45; 48; 95; 49; 50] 10) [XIScalar SAdd I8 (-5); XIScalar SMul U64 (2 ^ 63); XIScalar SMul U64 (2 ^ 63)]
+    = [Ret (OI (mkint Minus [12])); Ret (OI (mkint Minus [17])); Ret (OI (mkint Minus [9223372036854775808; 8]));
+       Ret (OI (mkint Minus [0; 4611686018427387904; 4]))] /\
+  (* arbitrary: two digits + a high zero digit, Minus sign byte *)
+  fst (arb_bigint ([0; 1; 7;0;0;0;0;0;0;0; 1; 9;0;0;0;0;0;0;0; 1; 0;0;0;0;0;0;0;0])) = mkint Minus [7; 9].
+Proof. split; vm_compute; reflexivity. Qed.
+
+(** two extended histories (any of the old or new constructors, any operations): equal integers are
+    the SAME object, so `==`, cmp, the hashed word stream and every export coincide
+    (C04_ueq_iff / C04_cmp / C04_hash_fun / C04_export_fun apply to them verbatim) *)
+Theorem C04_xindistinguishable : forall ca opsa cb opsb a b,
+  xctor_wf ca -> Forall xop_wf opsa -> xctor_wf cb -> Forall xop_wf opsb ->
+  xhistory P ca opsa = Ret a -> xhistory P cb opsb = Ret b ->
+  okind a = okind b -> oval a = oval b ->
+  a = b /\ ocanon a.
+Proof.
+  intros ca opsa cb opsb a b Wa Oa Wb Ob Ea Eb K V. split.
+  - exact (xindistinguishable ca opsa cb opsb a b Wa Oa Wb Ob Ea Eb K V).
+  - exact (xhistory_canon ca opsa a Wa Oa Ea).
+Qed.
+Print Assumptions C04_xindistinguishable.
